@@ -25,6 +25,11 @@
 //                                -> <v><c><f> per spec, joined by ','   v = IsValid (0|1|o), c = header.crc ==
 //                                   CalculateCRC(buffer) (0|1|o), f = number of framer callbacks (one digit, 9 = 9 or
 //                                   more) when the altered bytes alone are given to a fresh framer
+//   mutp <hex> <total> <fill> <spec>;...   as `mut`, but each altered copy is followed by (total - len) bytes of
+//                                value <fill> (decimal) in the same exact-size heap block of <total> bytes: the altered
+//                                message at the start of a larger caller buffer.  IsValid()/CalculateCRC(const void*)
+//                                take no length, so 'o' is judged against the <total> bytes that exist.  The framer is
+//                                given the first min(total, 2^18) bytes.
 //   pairs <hex> <lo> <hi>        every double bit flip {i, j}, lo <= i < j < hi (bit index = 8 * byte + bit):
 //                                -> <number of pairs> <accepted by IsValid> <accepted by crc compare> <first accepted
 //                                   pair i.j or ->      (oob counts as not accepted)
@@ -138,14 +143,14 @@ static void raw_cb(void* ctx, const MessageHeader& header, const void* payload) 
 static FusionEngineFramer* g_framer = nullptr;
 static const size_t FRAMER_CAPACITY = (1u << 17) + 64;
 
-static void run_framer(const Block& b, CbLog* log) {
+static void run_framer(const Block& b, CbLog* log, size_t limit = static_cast<size_t>(-1)) {
   if (g_framer == nullptr) {
     g_framer = new FusionEngineFramer(FRAMER_CAPACITY);
     g_framer->WarnOnError(false);
   }
   g_framer->Reset();
   g_framer->SetMessageCallback(raw_cb, log);
-  g_framer->OnData(b.p, b.n);
+  g_framer->OnData(b.p, b.n < limit ? b.n : limit);
 }
 
 static bool apply_spec(const std::string& spec, std::vector<uint8_t>* m) {
@@ -249,11 +254,14 @@ int main() {
           out << " hdr=-";
         }
       }
-    } else if (cmd == "mut") {
+    } else if (cmd == "mut" || cmd == "mutp") {
       std::string h, specs;
-      is >> h >> specs;
+      unsigned long long total = 0, fill = 0;
+      is >> h;
+      if (cmd == "mutp") is >> total >> fill;
+      is >> specs;
       std::vector<uint8_t> v;
-      if (!unhex(h, &v)) {
+      if (!unhex(h, &v) || (cmd == "mutp" && (total < v.size() || total > (1ull << 26) || fill > 255))) {
         out << "bad-args";
       } else {
         bool first = true;
@@ -265,9 +273,10 @@ int main() {
             out << "bad";
             continue;
           }
+          if (cmd == "mutp") m.resize(static_cast<size_t>(total), static_cast<uint8_t>(fill));
           Block b(m);
           CbLog log;
-          run_framer(b, &log);
+          run_framer(b, &log, cmd == "mutp" ? (1u << 18) : static_cast<size_t>(-1));
           out << call_isvalid(b) << call_crccmp(b) << (log.count > 9 ? 9 : log.count);
         }
       }
